@@ -7,6 +7,7 @@
 //	part B  every language on the full schema set x 3 input formats
 //	part C  directly constructed IRs through Pipeline.Run (Transforms.CommonPasses hook, see gen.go)
 //	part D  several packages in one run (multipkg.go)
+//	part E  unions over a branch alphabet: scalars, lists, maps, constants, null (unions.go)
 //
 // Oracle (from the property statement): the run returned success =>
 // every generated Go package compiles (`go build`, no vet), every generated
@@ -604,7 +605,7 @@ func main() {
 	// debugging aids (never set by verif.sh): C02_PARTS selects parts, C02_LIMIT caps the schema count
 	parts := os.Getenv("C02_PARTS")
 	if parts == "" {
-		parts = "ABCD"
+		parts = "ABCDE"
 	}
 	limit := 0
 	fmt.Sscan(os.Getenv("C02_LIMIT"), &limit)
@@ -679,6 +680,30 @@ func main() {
 	}
 	tD := time.Since(start) - tA
 
+	// ---- part E: unions over a branch alphabet (see unions.go)
+	inputsE := unionInputs(r.Thorough())
+	cfgsE := []Cfg{{"go", 2, 0b011111}, {"go", 0, 0b000001}, {"python", 1, 0b01}, {"java", 2, 0b1}, {"typescript", 1, 0}, {"php", 2, 0b1}}
+	if limit > 0 && limit < len(inputsE) {
+		inputsE = inputsE[:limit]
+	}
+	if !strings.Contains(parts, "E") {
+		inputsE = nil
+	}
+	doneE := 0
+	for i := 0; i < len(inputsE); i += 200 {
+		if ck.over() {
+			ck.truncated = append(ck.truncated, fmt.Sprintf("part E after %d of %d inputs", doneE, len(inputsE)))
+			break
+		}
+		j := i + 200
+		if j > len(inputsE) {
+			j = len(inputsE)
+		}
+		ck.run("E", inputsE[i:j], cfgsE)
+		doneE = j
+	}
+	tE := time.Since(start) - tA - tD
+
 	// ---- part C
 	var inputsC []*Input
 	for _, s := range irgen.SeedSchemas() {
@@ -711,7 +736,7 @@ func main() {
 		ck.run("C", inputsC, cfgsC)
 		doneC = len(inputsC)
 	}
-	tC := time.Since(start) - tA - tD
+	tC := time.Since(start) - tA - tD - tE
 
 	// ---- part B
 	schemasB := gschema.Enumerate(r.Thorough())
@@ -745,10 +770,10 @@ func main() {
 		ck.run("B", inputsB[i:j], partBCfgs(r.Thorough()))
 		doneB = j
 	}
-	tB := time.Since(start) - tA - tC - tD
+	tB := time.Since(start) - tA - tC - tD - tE
 
 	rounds, stable := ck.minimise(24)
-	tMin := time.Since(start) - tA - tB - tC - tD
+	tMin := time.Since(start) - tA - tB - tC - tD - tE
 
 	fs := ck.failures()
 	unjudged := 0
@@ -817,6 +842,8 @@ func main() {
 		"part_A":                                 map[string]any{"schemas": doneA, "of": len(inputsA), "go_configurations": len(allGoCfgs()), "units": doneA * len(allGoCfgs()), "format_used": fallback, "wall_s": tA.Seconds()},
 		"part_B":                                 map[string]any{"abstract_schemas": len(schemasB), "schema_format_inputs": doneB, "of": len(inputsB), "configurations_per_input": len(partBCfgs(r.Thorough())), "formats_skipped": skipped, "wall_s": tB.Seconds()},
 		"part_C":                                 map[string]any{"irs": doneC, "configurations_per_ir": len(cfgsC), "path": "real codegen.Pipeline.Run; IR injected through the exported Pipeline.Transforms.CommonPasses hook", "wall_s": tC.Seconds()},
+		"part_E": map[string]any{"union_inputs": doneE, "of": len(inputsE), "configurations_per_input": len(cfgsE), "branch_alphabet": len(unionAlphabet),
+			"what": "every pair of the branch alphabet (scalars, lists, maps, string and integer constants, null) and every triple (quick: over a reduced alphabet), inline in a field and as a named object referred to by a field (thorough: also optional field, root object, CUE spelling)", "wall_s": tE.Seconds()},
 		"part_D": map[string]any{"multi_package_inputs": doneD, "of": len(inputsD), "cue_front_end_inputs": cueD, "with_complete_go_product": len(inputsDcore), "configurations_per_input": len(cfgsC),
 			"what": "three layered packages p>q>r in one run; every reference shape with the target in another package; union W per subset of packages, both input orders; a middle package named q-x; formats ir3 (IR injected into Pipeline.Run) and cue3 (CUE packages importing each other)", "wall_s": tD.Seconds()},
 		"minimisation":                   map[string]any{"rounds": rounds, "stable": stable, "go_option_downsets_on_demand": ck.products, "wall_s": tMin.Seconds()},
